@@ -176,12 +176,45 @@ func exits(chain []string) []c14.Exit {
 }
 
 // Corpus builds the C15 program family. depth: chains enumerated completely; nDeeper: sampled one deeper.
+// GenDeep: a generator whose body, between two yields, runs a recursion of the given depth (which makes
+// a small value stack grow while the generator's frame is live on it) and then writes its locals before
+// the next yield: what was written after the growth must be there when the generator is resumed.
+func GenDeep(id, depth int) M {
+	defs := map[string]M{
+		"down": Def([]string{"n"}, "Int", false, B(
+			Let("loc", "Int", Bin("*", Var("n"), Int(2))),
+			If(Bin("<=", Var("n"), Int(0)), B(Return(Int(0))), L{}),
+			CallDecl("r", "down", Bin("-", Var("n"), Int(1))),
+			Return(Bin("+", Bin("+", Var("r"), Int(1)), Bin("-", Var("loc"), Var("loc")))))),
+		"genr": Def([]string{"seed"}, "Int", true, B(
+			Let("a", "Int", Bin("+", Var("seed"), Int(1))), Let("b", "Int", Int(5)),
+			Yield(Var("a")),
+			CallDecl("d", "down", Int(depth)),
+			Set("a", Bin("+", Var("a"), Var("d"))), Set("b", Bin("*", Var("b"), Int(3))), Let("c", "Int", Bin("+", Var("a"), Var("b"))),
+			Yield(Var("c")),
+			Set("a", Bin("+", Var("a"), Int(1))), Yield(Var("a")), Yield(Var("b")),
+			CallDecl("d2", "down", Int(depth/2)),
+			Set("c", Bin("+", Var("c"), Var("d2"))), Yield(Var("c")),
+			Return(Var("b")))),
+	}
+	main := B(Gen("g", "genr", Int(1000)), consume("g", "a", true), Gen("h", "genr", Int(2000)), consume("h", "b", false), Return(Int(0)))
+	defs["main_"] = Def(nil, "Int", false, main)
+	p := Prog(id, defs)
+	p["desc"] = fmt.Sprintf("generator whose body runs a recursion of depth %d between yields and writes its locals afterwards", depth)
+	p["tags"] = ""
+	return p
+}
+
 func Corpus(c *core.Ctx, depth, nDeeper, firstID int) []M {
 	var progs []M
 	id := firstID - 1
 	for k := 0; k < 3; k++ {
 		id++
 		progs = append(progs, localsFromCalls(id, k))
+	}
+	for _, d := range []int{40, 300, 700} {
+		id++
+		progs = append(progs, GenDeep(id, d))
 	}
 	var all [][]string
 	for d := 1; d <= depth; d++ {
